@@ -28,6 +28,11 @@ add("C19", "runtime monitor: reference reactive machine, exact-rational LIMERIC 
     "Annex A rows are the oracle's own transcription (the standard is not available offline); instants within 1 us of an opening are not judged.",
     "DESIGN.md 3/C19")
 
+add("C07", "runtime monitor: EN 302 931 oracle on two independent projections vs the real F function and the delivery/forwarding decisions of a real two-station run",
+    "Exploration: areas over the signed WGS-84 range (high latitudes, antimeridian), semi-axes 1..65535 m, all azimuths, three shapes x GBC/GAC; receivers are placed by the harness on rays through the border at relative radii {0,.5,.9,.98,1.02,1.1,2,10}; the sign of the real gn_geometric_function_f and, through a real source+receiver pair on the simulated ether, the indication, the GAC deliver-xor-forward rule, the Annex D forwarder choice (sender inside/outside, PAI on/off) and the area-size refusal of requests (GNDataConfirm) and forwards are compared with the oracle.",
+    "Points inside the tolerance band max(1 m, 1 % of the semi-axis, disagreement of the great-circle and equirectangular projections) are not judged, as the property allows; sender == source in the two-station runs.",
+    "DESIGN.md 3/C07")
+
 NOT_YET = "check not built yet (work in progress; runtime monitor planned in DESIGN.md section 3)"
 
 def main():
